@@ -215,6 +215,11 @@ def stagger_spec(ports, rng, n, with_qnodeos, long_wait=False):
         if long_wait and kind == "vnode" and not any(s_["kind"] == "vnode" for s_ in steps):
             gap = round(rng.uniform(3.5, 4.5), 2)     # the first virtual node is refused for a long time (>= 70 retry rounds at 0.05 s)
         steps.append({"op": "launch", "kind": kind, "node": x, "gap": gap})
+    if n >= 2:
+        # a native program that does not wait for readiness: right after the FIRST virtual node came up it asks it to send a qubit to the
+        # virtual node launched LAST (not started yet, several retry intervals away); the request must wait and then complete
+        vn = [k for k, s_ in enumerate(steps) if s_["kind"] == "vnode"]
+        steps.insert(vn[0] + 1, {"op": "early_send", "from": steps[vn[0]]["node"], "to": steps[vn[-1]]["node"]})
     steps.append({"op": "settle"})
     steps.append({"op": "program"})
     if with_qnodeos and n >= 2:
@@ -404,6 +409,13 @@ def judge_stagger(res):
             bad.append(("program", "native program on %s misbehaved: %r" % (e["node"], {x: e.get(x) for x in ("ok", "outcomes", "error")})))
         elif k == "epr" and not epr_ok(e):
             bad.append(("epr", "create_keep/recv_keep %r: %r" % (e["pair"], e["results"])))
+        elif k == "early_send":
+            r_, g_ = e["result"], e["received"]
+            if not r_.get("ok"):
+                bad.append(("early-program", "a send from %s to %s issued before %s's virtual node was launched did not wait for the connection: %s (after %s s)"
+                            % (e["src"], e["dst"], e["dst"], r_.get("error"), r_.get("took"))))
+            elif not (g_ and g_.get("ok") and g_.get("outcome") == 1):
+                bad.append(("early-program", "the qubit sent from %s to %s before %s was up did not arrive as |1>: %r" % (e["src"], e["dst"], e["dst"], g_)))
         elif k == "terminated":
             if any(v is None for v in e["exit"].values()):
                 bad.append(("stop-leaves-process", "SIGTERM did not end: %r" % [x for x, v in e["exit"].items() if v is None]))
@@ -512,10 +524,12 @@ def run(ctx):
     problems = []
     strict_busy = 0
     for r in results:
-        steps = [e for e in r["events"] if e["ev"] in ("start", "ready", "program", "epr", "stop", "reopen", "launch", "check", "terminated")]
+        steps = [e for e in r["events"] if e["ev"] in ("start", "ready", "program", "epr", "stop", "reopen", "launch", "check", "terminated", "early_send")]
         for i, e in enumerate(steps):
             ctx.case((r["sid"], i), nontrivial=True)
             ctx.count("step_" + e["ev"])
+            if e["ev"] == "early_send" and e["result"].get("ok"):
+                ctx.count("early_send_waited_s_x100", int(100 * e["result"]["took"]))
             if e["ev"] in ("stop", "terminated"):
                 strict_busy += sum(1 for v in e["ports"].values() if not v["strict_bind"])
         ctx.count("nodes_%d" % len(r["spec"]["nodes"]))
